@@ -23,7 +23,7 @@ META = dict(
     level_text="All crash points of every generated replacement are enumerated: before os.open/open-for-write, before each write and after 1, n/2, n-1 and one generated length of it (every length for n <= 12), before rename/remove, and the final state. Contents, target existence, name, extension (str/bytes, several values), path mode, sob style/tag/filename and the saved objects are generated (Hypothesis) plus a complete small grid. Process-crash model: completed system calls persist in order (no power-loss reordering; that is what the docstring's journaling assumptions are about).",
     level_note="Trusted: the recorder sees every state-changing call because os.open/os.fdopen/os.rename/os.remove/os.unlink and the name `open` inside twisted.python.filepath and twisted.persisted.sob are all replaced while the code under test runs. UNIX path only (the documented Windows delete-then-rename window is outside this platform).",
     design_ref="§5 C52",
-    rule="case = (api, old content or absent, new content, naming variation, partial-write fraction). One evaluation = one replacement with all its crash states. non-trivial = a crash state in which a temporary file holds a partial or complete copy of the new content while the target still shows the old state; distinct by (api, old, bytes written so far, new).",
+    rule="case = (api, old content or absent, new content, naming variation, partial-write fraction, optionally an earlier call that crashed at a generated crash point so that this call starts with its leftover temporary file). One evaluation = one replacement with all its crash states. non-trivial = a crash state in which a temporary file holds a partial or complete copy of the new content while the target still shows the old state; distinct by (api, old, bytes written so far, new).",
 )
 
 _os_open, _os_fdopen, _os_rename, _os_remove, _os_unlink = os.open, os.fdopen, os.rename, os.remove, os.unlink
@@ -49,8 +49,10 @@ class _Recorder:
         self.frac = frac
         self.active = False
         self.states = []      # (why, {name: bytes})
+        self.calls = 0        # crash points seen (states are de-duplicated)
 
     def snap(self, why):
+        self.calls += 1
         tree = _read_dir(self.d)
         if self.states and self.states[-1][1] == tree:
             return
@@ -172,8 +174,19 @@ class _Patched:
                 del m.open
 
 
-def _judge(ctx, case, states, target, old, new, is_temp, api):
-    """states: [(why, {name: bytes})]; the last one is the state after the call returned."""
+def _materialize(d, tree):
+    """Make directory d hold exactly `tree` (a crash state of an earlier call)."""
+    for n in os.listdir(d):
+        _os_remove(os.path.join(d, n))
+    for n, content in tree.items():
+        with _builtin_open(os.path.join(d, n), "wb") as fh:
+            fh.write(content)
+
+
+def _judge(ctx, case, states, target, old, new, is_temp, api, pre_extra=()):
+    """states: [(why, {name: bytes})]; the last one is the state after the call
+    returned.  pre_extra: temporary files an earlier crashed call had left in the
+    directory before this call started (they may stay or be consumed)."""
     inflight = 0
     for i, (why, tree) in enumerate(states):
         last = i == len(states) - 1
@@ -182,7 +195,7 @@ def _judge(ctx, case, states, target, old, new, is_temp, api):
             if got != new:
                 ctx.violation(f"{api}:completed-call-wrong-content", case,
                               f"after the call returned the target holds {got!r:.80}, expected {new!r:.80}")
-            extra = [n for n in tree if n != target]
+            extra = [n for n in tree if n != target and n not in pre_extra]
             if extra:
                 ctx.violation(f"{api}:completed-call-left-files", case, f"files left after a completed call: {extra}")
             continue
@@ -218,6 +231,25 @@ def _case_setcontent(ctx, case, d):
     if old is not None:
         with _builtin_open(target_path, "wb") as f:
             f.write(old)
+    pre_extra = ()
+    if case.get("mid") is not None:
+        # an earlier setContent(mid) crashed at one of its crash points; this
+        # call starts on what it left behind
+        rec0 = _Recorder(d, case.get("frac", 50))
+        fp0 = FilePath(target_path)
+        with _Patched(rec0):
+            rec0.active = True
+            try:
+                fp0.setContent(case["mid"]) if ext is None else fp0.setContent(case["mid"], ext)
+            finally:
+                rec0.active = False
+            rec0.snap("call returned")
+        tree = rec0.states[case.get("resume", 0) % len(rec0.states)][1]
+        _materialize(d, tree)
+        old = tree.get(name)
+        pre_extra = tuple(n for n in tree if n != name)
+        ctx.count("setContent: started on a crash state of an earlier call" +
+                  (" (leftover temporary file)" if pre_extra else ""))
     fp = FilePath(target_path.encode() if case.get("bytes_path") else target_path)
     if case.get("statted"):
         fp.exists()          # cached stat information must not matter
@@ -234,9 +266,9 @@ def _case_setcontent(ctx, case, d):
         rec.snap("call returned")
     ext_s = ".new" if ext is None else (ext.decode() if isinstance(ext, bytes) else ext)
     _judge(ctx, case, rec.states, name, old, new,
-           lambda n: n.endswith(name + ext_s) and n != name, "setContent")
-    if len(rec.states) < (4 if new else 3):
-        raise AssertionError(f"recorder saw only {len(rec.states)} states: interception broken?")
+           lambda n: n.endswith(name + ext_s) and n != name, "setContent", pre_extra)
+    if rec.calls < 4:
+        raise AssertionError(f"recorder saw only {rec.calls} crash points: interception broken?")
 
 
 def _case_sob(ctx, case, d):
@@ -255,8 +287,16 @@ def _case_sob(ctx, case, d):
         kw = {}
     target = os.path.basename(final)
     old_bytes = None
+    pre_extra = ()
+    is_temp = lambda n: n == target + "-2" or n == target[:-len(ext) - 1] + "-2." + ext   # noqa: E731
     objs = [case["old_obj"], case["new_obj"]] if case.get("has_old") else [case["new_obj"]]
     for i, obj in enumerate(objs):
+        # what a complete save of obj consists of, computed without any file
+        if style == "pickle":
+            expect = pickle.dumps(obj, 2)
+        else:
+            from twisted.persisted.aot import jellyToSource
+            expect = jellyToSource(obj).encode("utf-8")
         p = sob.Persistent(obj, name)
         p.setStyle(style)
         rec = _Recorder(d, case.get("frac", 50))
@@ -267,19 +307,31 @@ def _case_sob(ctx, case, d):
             finally:
                 rec.active = False
             rec.snap("call returned")
-        with _builtin_open(final, "rb") as f:
-            new_bytes = f.read()
-        if style == "pickle":
-            if pickle.loads(new_bytes) != obj:
-                ctx.violation("sob:saved-object-differs", case, "the completed save does not load back to the object")
+        _judge(ctx, case, rec.states, target, old_bytes, expect, is_temp, "sob-" + style, pre_extra)
         loaded = sob.load(final, style)
         if loaded != obj:
             ctx.violation("sob:saved-object-differs", case, f"load() gives {loaded!r:.80}, saved {obj!r:.80}")
-        _judge(ctx, case, rec.states, target, old_bytes, new_bytes,
-               lambda n: n == target + "-2" or n == target[:-len(ext) - 1] + "-2." + ext, "sob-" + style)
-        if len(rec.states) < 3:
-            raise AssertionError(f"recorder saw only {len(rec.states)} states: interception broken?")
-        old_bytes = new_bytes
+        if rec.calls < 4:
+            raise AssertionError(f"recorder saw only {rec.calls} crash points: interception broken?")
+        old_bytes = expect
+        if i == 0 and len(objs) == 2 and case.get("resume") is not None:
+            # the first save did not complete: it crashed at one of its crash
+            # points, and the second save starts on what it left behind
+            tree = rec.states[case["resume"] % len(rec.states)][1]
+            _materialize(d, tree)
+            old_bytes = tree.get(target)
+            pre_extra = tuple(n for n in tree if n != target)
+            ctx.count(f"sob-{style}: second save started on a crash state of the first")
+            if pre_extra:
+                left = max(len(tree[n]) for n in pre_extra)
+                ctx.count(f"sob-{style}: leftover temporary file present at start")
+                if style == "pickle":
+                    nxt = len(pickle.dumps(objs[1], 2))
+                else:
+                    from twisted.persisted.aot import jellyToSource
+                    nxt = len(jellyToSource(objs[1]).encode("utf-8"))
+                if left > nxt:
+                    ctx.count(f"sob-{style}: leftover temporary file longer than the next serialisation")
 
 
 def run_case(ctx, case):
@@ -312,7 +364,9 @@ def _setcontent_strategy():
         new = draw(_content())
         old = draw(st.one_of(st.none(), _content(), st.just(new),
                              st.integers(0, len(new)).map(lambda k: new[:k])))     # old may be a prefix of new
-        return dict(api="setContent", name=draw(name), ext=draw(ext), old=old, new=new,
+        mid = draw(st.one_of(st.none(), _content()))
+        return dict(api="setContent", name=draw(name), ext=draw(ext), old=old, new=new, mid=mid,
+                    resume=draw(st.integers(0, 12)),
                     bytes_path=draw(st.booleans()), statted=draw(st.booleans()), frac=draw(st.integers(1, 99)))
     return case()
 
@@ -329,6 +383,7 @@ def _sob_strategy():
                      name=st.sampled_from(["app", "my app", "srv.1"]),
                      tag=st.one_of(st.none(), st.sampled_from(["shutdown", "t2"])),
                      use_filename=st.booleans(), has_old=st.booleans(),
+                     resume=st.one_of(st.none(), st.integers(0, 12)),
                      old_obj=_obj(), new_obj=_obj(), frac=st.integers(1, 99))
 
 
@@ -349,6 +404,11 @@ def _grid():
                     for tag, use_filename in ((None, False), ("shutdown", False), (None, True)):
                         yield dict(api="sob", style=style, name="app", tag=tag, use_filename=use_filename,
                                    has_old=has_old, old_obj=o, new_obj=n, frac=37)
+                    if has_old:
+                        # the second save starts on every crash state of the first
+                        for resume in range(0, 9):
+                            yield dict(api="sob", style=style, name="app", tag=None, use_filename=False,
+                                       has_old=True, old_obj=o, new_obj=n, frac=37, resume=resume)
 
 
 def _hyp_shard(sub, i):
